@@ -43,6 +43,9 @@ type vMgr struct {
 	Via    string `json:"via,omitempty"`
 	NewJWK string `json:"newJwk,omitempty"`
 	Rm     string `json:"rm,omitempty"`
+	// round 3: on the replay node CreateTransaction answers the transaction the generator signed from the first run's template, so
+	// that Manager.Update goes on to its OWN store.Add; the pair this call is attached to then reaches the ambassador as a duplicate
+	Own bool `json:"own,omitempty"`
 }
 
 type vMgrOp struct {
@@ -59,6 +62,7 @@ type vMgrOp struct {
 	B58   string   `json:"b58,omitempty"` // via=new: the same thumbprint in base58, calculated by the harness's own code
 	Rm    string   `json:"rm,omitempty"`  // via=rmvm: the key id to remove; Doc = view of the resolved document (contexts added)
 	Hash  string   `json:"hash,omitempty"` // via=iscommitted: SHA-256 of the change's raw document
+	Own   *vTxView `json:"own,omitempty"`  // the transaction CreateTransaction answered (Manager.Update then writes it to the store itself)
 }
 
 var errVerifStop = errors.New("verif-stop")
@@ -84,6 +88,7 @@ type vMgrResult struct {
 	shape     string // via=rmvm: verificationMethod ids and capabilityInvocation ids of the PUBLISHED payload
 	committed string // via=iscommitted: "true" / "false"
 	rawHash   string
+	ownAdd    string // "" = CreateTransaction was stopped; "ok" / "err:…" = outcome of Manager.Update's own store.Add
 }
 
 func (r vMgrResult) line() string {
@@ -109,6 +114,9 @@ func (r vMgrResult) line() string {
 	}
 	if r.shape != "" {
 		out += " " + r.shape
+	}
+	if r.ownAdd != "" {
+		out += " own-add=" + r.ownAdd
 	}
 	return out
 }
@@ -145,6 +153,7 @@ func (n *vNode) runManager(m *vMgr) (res vMgrResult) {
 			res.class = "panic:" + site
 		}
 		n.onCreate = nil
+		n.ownTx = nil
 	}()
 	raw, _ := base64.StdEncoding.DecodeString(m.Next)
 	var next did.Document
@@ -167,6 +176,9 @@ func (n *vNode) runManager(m *vMgr) (res vMgrResult) {
 	var captured *network.Template
 	n.onCreate = func(t network.Template) (dag.Transaction, error) {
 		captured = &t
+		if n.ownTx != nil {
+			return n.ownTx, nil // Manager.Update goes on to m.store.Add(next, this transaction)
+		}
 		return nil, errVerifStop // nothing is written by the manager itself: every node sees the update through its ambassador
 	}
 	res2 := &Resolver{Store: n.store}
@@ -286,6 +298,13 @@ func (n *vNode) runManager(m *vMgr) (res vMgrResult) {
 		res.kid, res.prevs, res.payload = captured.KID, captured.AdditionalPrevs, captured.Payload
 		if captured.PublicKey != nil {
 			res.key = vThumbOfPublic(captured.PublicKey)
+		}
+		if n.ownTx != nil {
+			if err == nil {
+				res.ownAdd = "ok"
+			} else {
+				res.ownAdd = "err:mgr:store:" + vErrCause(err)
+			}
 		}
 		if m.Via == "rmvm" {
 			var pub did.Document
@@ -443,8 +462,10 @@ func (g *vGen) mgrStep(n *vNode) *vPair {
 	}
 	var pubSpec vDocSpec = spec
 	target := d
+	ownAdd := via != "updated" && g.rng.Intn(2) == 0
 	p := g.emit("mgr:published", res.payload, vSignSpec{key: key, kid: res.kid, prevs: prevs, clock: g.clockFor(prevs)}, func(ok bool, tx dag.Transaction) {
 		if ok {
+			m.Own = ownAdd // only when the first run's ambassador accepted: both nodes then hold the same events
 			target.versions = append(target.versions, vVersion{spec: pubSpec.clone(), ref: tx.Ref(), clock: tx.Clock(), time: tx.SigningTime().Unix()})
 		}
 	})
